@@ -221,6 +221,31 @@ Proof.
         cbn [app strip_log filter strip_tree strip_opt]; rewrite out_matches_mk, M; reflexivity.
 Qed.
 
+(* the exact statement for ALL item sequences: suppression = strip, plus the fallback-text coupling *)
+Lemma run_suppress_coupled fe S items :
+  forallb item_type_nodot items = true ->
+  run fe S items = strip_coupled S (run fe [] items).
+Proof.
+  induction items as [|it items IH]; intro H.
+  - reflexivity.
+  - simpl in H. apply andb_true_iff in H as [H1 H2]. specialize (IH H2). unfold strip_coupled in IH |- *.
+    destruct it as [e|x|e text tgt]; cbn [run].
+    + cbn [item_type_nodot] in H1.
+      rewrite (create_warning_spec fe S e H1), (create_warning_spec fe [] e H1), tag_matches_nil.
+      rewrite IH. destruct (run fe [] items) as [log tree]. cbn [fst snd].
+      destruct (tag_matches S (type_str e) (we_sub e)) eqn:M.
+      * cbn [app strip_log filter]. rewrite out_matches_mk, M. cbn [negb].
+        destruct (we_placed e); [cbn [strip_tree_coupled]; rewrite out_matches_mk, M|]; reflexivity.
+      * cbn [app strip_log filter]. rewrite out_matches_mk, M. cbn [negb].
+        destruct (we_placed e); [cbn [strip_tree_coupled]; rewrite out_matches_mk, M|]; reflexivity.
+    + rewrite IH. destruct (run fe [] items) as [log tree]. reflexivity.
+    + cbn [item_type_nodot] in H1.
+      rewrite (create_warning_spec fe S e H1), (create_warning_spec fe [] e H1), tag_matches_nil.
+      rewrite IH. destruct (run fe [] items) as [log tree]. cbn [fst snd].
+      destruct (tag_matches S (type_str e) (we_sub e)) eqn:M; destruct text;
+        cbn [app strip_log filter strip_tree_coupled strip_ref]; rewrite out_matches_mk, M; reflexivity.
+Qed.
+
 (* the unguarded statement fails: a missing '#target' link without text gets its fallback text only
    when the warning is suppressed *)
 Lemma run_suppress_exact_refuted :
@@ -242,9 +267,9 @@ Fixpoint all_out (items : list item) : list wout * list tnode :=
   | IWarn e :: rest =>
       let '(log, tree) := all_out rest in
       (mk_out e :: log, if we_placed e then TSys (mk_out e) :: tree else tree)
-  | IXrefMissing e text _ :: rest =>
+  | IXrefMissing e text tgt :: rest =>
       let '(log, tree) := all_out rest in
-      (mk_out e :: log, TRef text (Some (mk_out e)) None :: tree)
+      (mk_out e :: log, TRef text (Some (mk_out e)) None tgt :: tree)
   end.
 
 Lemma run_nil_all fe items :
